@@ -201,7 +201,7 @@ impl FarmWorld {
 
     /// independent recomputation of what `orig` must receive as boosted rewards in this op:
     /// per week (week, amount) for the weeks of the claim window
-    pub fn expected_boosted(&self, pre: &Snap, orig: u64) -> Vec<(usize, BigUint)> {
+    pub fn expected_boosted(&mut self, pre: &Snap, orig: u64) -> Vec<(usize, BigUint)> {
         let mut v = vec![];
         if orig == 0 || orig as usize > pre.users.len() || pre.cfg.is_none() {
             return v;
@@ -229,6 +229,14 @@ impl FarmWorld {
                 None => continue,
             };
             let amt = f_boosted(&fa, &r, &u.total, &info.fsupply, &e, &info.tenergy);
+            if !info.tenergy.is_zero() && !info.fsupply.is_zero() && !r.is_zero() {
+                if e == fa.min_e || u.total == fa.min_f {
+                    self.hits.push("branch.boosted_at_minimum".into());
+                }
+                if &e + 1u32 == fa.min_e || &u.total + 1u32 == fa.min_f {
+                    self.hits.push("branch.boosted_just_below_minimum".into());
+                }
+            }
             if std::env::var("VERIF_DIAG").is_ok() {
                 let why = if info.tenergy.is_zero() { "E0" } else if info.fsupply.is_zero() { "F0" } else if e < fa.min_e { "e<min" } else if u.total < fa.min_f { "f<min" } else if r.is_zero() { "R0" } else if amt.is_zero() { "floor0" } else { "paid" };
                 eprintln!("DIAG {}", why);
